@@ -138,6 +138,11 @@ func verifyFunc(p *Program, c *FuncContract) (res *FuncResult) {
 	for _, r := range c.Requires {
 		ex.assume(st, ex.evalSpecBool(env, r.Expr))
 	}
+	// shape: every call-site clause of the contract must name a call that exists in the
+	// function (or in a closure it contains); a clause whose call is gone decides nothing
+	if msg := p.missingCallSites(c, fn); msg != "" {
+		ex.obls = append(ex.obls, &Obligation{Name: c.Name + "/shape:call-site-exists:" + strings.Fields(strings.TrimPrefix(msg, "call clause for "))[0], Func: c.Name, Kind: "shape", PC: ex.tb.True, Claim: ex.tb.False, Entry: ex.entry, Detail: msg})
+	}
 	ex.oldState = st.clone()
 	ex.execBody(fr, st)
 	// postconditions at every return
@@ -290,3 +295,66 @@ func contractMentionsProp(c *FuncContract, prop string) bool {
 }
 
 var _ = strings.TrimSpace
+
+
+// missingCallSites reports the first call clause without a matching call instruction.
+func (p *Program) missingCallSites(c *FuncContract, fn *ssa.Function) string {
+	type site struct {
+		name string
+		ord  int
+	}
+	var sites []site
+	var walk func(f *ssa.Function)
+	walk = func(f *ssa.Function) {
+		for _, b := range f.Blocks {
+			for _, in := range b.Instrs {
+				ci, ok := in.(ssa.CallInstruction)
+				if !ok {
+					continue
+				}
+				n := callName(ci.Common())
+				if n == "" {
+					continue
+				}
+				sites = append(sites, site{n, p.callOrdinal(in, n)})
+			}
+		}
+		for _, a := range f.AnonFuncs {
+			if p.contractFor(a) == nil {
+				walk(a)
+			}
+		}
+	}
+	walk(fn)
+	for _, cc := range c.Calls {
+		// a clause that only forbids the call (requires ...: false) is satisfied by its absence
+		forbidOnly := len(cc.Sets) == 0 && len(cc.Assumes) == 0 && len(cc.Requires) > 0
+		for _, r := range cc.Requires {
+			if b, ok := r.Expr.(*EBool); !ok || b.Val {
+				forbidOnly = false
+			}
+		}
+		if forbidOnly {
+			continue
+		}
+		found := false
+		for _, s := range sites {
+			if s.name != cc.Callee && !strings.HasSuffix(s.name, "."+cc.Callee) {
+				continue
+			}
+			if cc.Nth >= 0 && cc.Nth != s.ord {
+				continue
+			}
+			found = true
+			break
+		}
+		if !found {
+			what := cc.Callee
+			if cc.Nth >= 0 {
+				what += fmt.Sprintf("#%d", cc.Nth)
+			}
+			return "call clause for " + what + " : no such call in the function any more"
+		}
+	}
+	return ""
+}
